@@ -123,7 +123,9 @@ def check_assembly(ctx, rule, sfn):
            detail={"problems": problems}, sample={"fn": sfn, "elements": [show(e["term"])[:90] for e in els]})
     # the function returns the buffer written once by that into_writer, whose result is unwrapped
     rt = pv.return_term()
-    buf_ok = is_call(rt, "alloc::vec::Vec::<T>::new")
+    from lib.prov import unmutated
+    rt, handed_out = unmutated(rt)
+    buf_ok = (is_call(rt, "alloc::vec::Vec::<T>::new") or is_call(rt, "alloc::vec::Vec::<T>::with_capacity")) and len(handed_out) == 1
     writers = [e for e in pv.effects() if e["kind"] == "call" and e["place"][0] == "local" and f.local_ty(e["place"][1]) == "alloc::vec::Vec<u8>"]
     ctx.ob(rule, "returns-serialisation:%s" % sfn, buf_ok and len(writers) == 1 and writers[0]["bb"] == wbb,
            "%s returns a fresh buffer written only by the one into_writer call" % sfn, where=f.span,
